@@ -113,6 +113,53 @@ def corrTail (ny nx pad : Nat) (t : K) (corr : Nat → Nat → K) : K × K :=
   let c := cog2 (ny * pad) (nx * pad) t ((0 : Nat) : K) corr
   (c.1 - ((padOffset nx pad : Nat) : K), c.2 - ((padOffset ny pad : Nat) : K))
 
+/-! ### the N-D paths on the flat C-ordered buffer
+
+The definitions `cogN`, `bpN`, `quadCellN`, `corrCentroidN` above take a stack as a FUNCTION of the frame index, so they
+are "the 2-D expression for each `i`" by construction.  The real N-D code never sees frames: it works on one C-ordered
+buffer of shape `(nf, ny, nx)` (any number of leading axes, flattened in C order into `nf`) with axis reductions
+(`.max(-1).max(-1)`, `.sum(-1).sum(-1)`, `.sum(-2)`), broadcasting (`thres[..., None, None]`, `numpy.indices((ny, nx))`
+against the stack) and fancy indexing (`[..., -nPxls]`, `[..., 1]`).  The `…Flat` definitions below spell out THAT index
+arithmetic on the buffer `a : Nat → K` (element `[i, y, x]` at `(i·ny + y)·nx + x`); that they give frame `i` the answer
+of the 2-D path is a theorem (`flat_eq_frames_*` in Props/C15), not a definition.  The driver runs these. -/
+
+/-- frame `i` of a C-ordered `(nf, ny, nx)` buffer (`img[i]`) -/
+def frameOf (ny nx : Nat) (a : Nat → K) (i : Nat) : Nat → Nat → K := fun y x => a ((i * ny + y) * nx + x)
+
+/-- `b.max(-1)` on a buffer whose last axis has length `n`: the result buffer has one entry per row `r` -/
+def maxLast (n : Nat) (a : Nat → K) : Nat → K := fun r => maxTo n (fun j => a (r * n + j))
+/-- `b.sum(-1)` -/
+def sumLast (n : Nat) (a : Nat → K) : Nat → K := fun r => sumTo n (fun j => a (r * n + j))
+
+/-- multi-index of element `e` of a C-ordered `(nf, ny, nx)` buffer -/
+def unravelF (ny nx e : Nat) : Nat := e / (ny * nx)
+def unravelY (ny nx e : Nat) : Nat := (e / nx) % ny
+def unravelX (nx e : Nat) : Nat := e % nx
+
+/-- `centre_of_gravity`, N-D path, on the buffer: `thres = maximum(t*img.max(-1).max(-1), mn)` has one entry per frame and
+is broadcast as `thres[..., None, None]` (element `e` reads entry `unravelF e`); `numpy.indices((ny, nx))` is broadcast
+against the stack (element `e` reads `y_cent[unravelY e, unravelX e] = unravelY e`); `.sum(-1).sum(-1)` -/
+def cogFlat (ny nx : Nat) (t mn : K) (a : Nat → K) : Nat → K × K :=
+  let thres : Nat → K := fun i => thresOf t mn (maxLast ny (maxLast nx a) i)
+  let img : Nat → K := if nonzero t then fun e => clipSub (thres (unravelF ny nx e)) (a e) else a
+  let tot : Nat → K := sumLast ny (sumLast nx img)
+  let mx : Nat → K := sumLast ny (sumLast nx (fun e => ((unravelX nx e : Nat) : K) * img e))
+  let my : Nat → K := sumLast ny (sumLast nx (fun e => ((unravelY ny nx e : Nat) : K) * img e))
+  fun i => (mx i / tot i, my i / tot i)
+
+/-- `brightest_pixel` on the buffer: `img.reshape(lead + (ny*nx,))` is the same buffer with rows of length `ny·nx`;
+`numpy.sort(…)[..., -k]` per row; `pxlValues[..., None, None]` broadcast; clip; N-D centre of gravity -/
+def bpFlat (ny nx k : Nat) (a : Nat → K) : Nat → K × K :=
+  let p : Nat → K := fun i => kthLargest ((List.range (ny * nx)).map (fun j => a (i * (ny * nx) + j))) k
+  cogFlat ny nx ((0 : Nat) : K) ((0 : Nat) : K) (fun e => clip0 (a e - p (unravelF ny nx e)))
+
+/-- `quadCell` on the buffer: `xSum = img.sum(-2)` is a `(nf, nx)` buffer (entry `r` = frame `r / nx`, column `r % nx`),
+`ySum = img.sum(-1)` a `(nf, ny)` buffer; `xSum[..., 1] - xSum[..., 0]`, `ySum[..., 1] - ySum[..., 0]` -/
+def quadFlat (ny nx : Nat) (a : Nat → K) : Nat → K × K :=
+  let xSum : Nat → K := fun r => sumTo ny (fun y => a (((r / nx) * ny + y) * nx + r % nx))
+  let ySum : Nat → K := sumLast nx a
+  fun i => (xSum (i * nx + 1) - xSum (i * nx + 0), ySum (i * ny + 1) - ySum (i * ny + 0))
+
 end real
 
 /-! ### cross-correlation through the DFT kernel of C09 -/
@@ -172,6 +219,19 @@ def corrCentroidN [Add K] [Sub K] [Mul K] [Div K] [NatCast K] [OfScientific K] [
     (conj : C → C) (absC : C → K) (memo : (Nat → Nat → C) → Img C) (ofReal : K → C)
     (t : K) (stack : ι → Nat → Nat → K) (ref : Nat → Nat → K) : ι → K × K :=
   fun i => corrCentroid ny nx pad wy wx wiy wix ninvy ninvx zero conj absC memo ofReal t (stack i) ref
+
+/-- `correlation_centroid` on a C-ordered `(nt, ny, nx)` buffer: `im = (im.T - im.min((1, 2))).T` (the per-frame minima
+are broadcast along the two frame axes: element `e` reads entry `unravelF e`), then the Python loop over `im[frame]` -/
+def corrFlat [Add K] [Sub K] [Mul K] [Div K] [NatCast K] [OfScientific K] [LT K] [DecidableLT K]
+    (ny nx pad : Nat) (wy wx wiy wix : Nat → C) (ninvy ninvx zero : C)
+    (conj : C → C) (absC : C → K) (memo : (Nat → Nat → C) → Img C) (ofReal : K → C)
+    (t : K) (a : Nat → K) (ref : Nat → Nat → K) : Nat → K × K :=
+  let mins : Nat → K := fun i => min2 ny nx (frameOf ny nx a i)
+  let im : Nat → K := fun e => a e - mins (unravelF ny nx e)
+  let mr := min2 ny nx ref
+  fun i => corrTail ny nx pad t
+    (crossCorrelate ny nx pad wy wx wiy wix ninvy ninvx zero conj absC memo
+      (fun u v => ofReal (frameOf ny nx im i u v)) (fun u v => ofReal (ref u v - mr))).px
 
 end cplx
 
